@@ -4,7 +4,7 @@
     0 and dims - 1, the order clip-then-cast (the repaired order: the translator rejects a cast before the clip), and the sliding
     archive's clip(m + eps, lower, upper - eps). *)
 From Coq Require Import List ZArith QArith Qminmax Qround Lqa.
-From PV Require Import Base.MixedRadix Model.Grid Model.SlidingIndex Generated.GridGen.
+From PV Require Import Base.MixedRadix Model.Grid Model.SlidingIndex Generated.GridGen Proofs.GridProofs.
 Open Scope Q_scope.
 
 Theorem gen_grid_raw_refines d lo hi eps m : gen_grid_raw d lo hi eps m == grid_raw d lo hi eps m.
@@ -34,6 +34,19 @@ Proof.
   - apply gen_grid_raw_refines.
 Qed.
 
+(** hence what the source computes is, for EVERY measure (however far outside the bounds), a cell of the grid; it is monotone in the
+    measure; and everything at or beyond the upper bound falls in the last cell *)
+Theorem gen_grid_idx1_in_range d lo hi eps m : (1 <= d)%Z -> (0 <= gen_grid_idx1 d lo hi eps m < d)%Z.
+Proof. intros Hd. rewrite gen_grid_idx1_refines. apply grid_idx1_clip_first_range. exact Hd. Qed.
+
+Theorem gen_grid_idx1_mono d lo hi eps m1 m2 : (1 <= d)%Z -> lo < hi -> m1 <= m2 ->
+  (gen_grid_idx1 d lo hi eps m1 <= gen_grid_idx1 d lo hi eps m2)%Z.
+Proof. intros Hd Hw Hm. rewrite !gen_grid_idx1_refines. apply grid_idx1_clip_first_mono; assumption. Qed.
+
+Theorem gen_grid_idx1_upper_edge d lo hi eps m : (1 <= d)%Z -> lo < hi -> 0 <= eps -> hi <= m ->
+  gen_grid_idx1 d lo hi eps m = (d - 1)%Z.
+Proof. intros Hd Hw He Hm. rewrite gen_grid_idx1_refines. apply grid_idx1_clip_first_edge_high; assumption. Qed.
+
 (** the sliding archive: what is searched in the boundaries is clip(m + eps, lo, hi - eps), as in Model/SlidingIndex.v *)
 Theorem gen_sb_clipped_refines d b lo hi eps m :
   sb_idx1 d b lo hi eps m = Nat.max 0 (searchsorted_left (firstn d b) (gen_sb_clipped lo hi eps m) - 1).
@@ -43,3 +56,6 @@ Print Assumptions gen_grid_raw_refines.
 Print Assumptions gen_grid_clip_bounds.
 Print Assumptions gen_grid_idx1_refines.
 Print Assumptions gen_sb_clipped_refines.
+Print Assumptions gen_grid_idx1_in_range.
+Print Assumptions gen_grid_idx1_mono.
+Print Assumptions gen_grid_idx1_upper_edge.
